@@ -504,3 +504,10 @@ def run(ck):
               "re-parsing a rolled-back header block leaves the cookie jar as it was: CookieJar::add is a keep-first insert into containers "
               "with unique keys (and the request's Cookie header clears the jar before it is read again)",
               key_pred=lambda k: k.startswith("CookieJar::add/") or k.endswith("/unique-keys") or k.startswith("HeadersStep/"), min_instances=3)
+    # what the incremental body copy remembers between two reads starts from zero for every chunk and every message
+    ck.borrow("C04", ["C04-R2"], "C01-R9",
+              "the counters that carry a body across reads (bytes of the body read, size of the current chunk, bytes of it already "
+              "copied) are re-initialised by the reset routines -- Chunk::reset(), which the chunked-body loop calls between two chunks, "
+              "clears every counter Chunk::parse advances: a count left over from the previous chunk makes the copy of the next one depend "
+              "on where the reads were cut", key_pred=lambda k: "BodyStep::" in k, min_instances=6)
+
